@@ -3,7 +3,15 @@
    Generated/DCTables.v, every `go` statement, `select`, channel receive, `range` over a map,
    use of package runtime, and import of math/rand, time, sync, sync/atomic, os, crypto/rand,
    runtime, unsafe.  Both renderers are sequential loops; with none of these constructs the
-   triangle sequence is a function of the values the SDF returns. *)
+   triangle sequence is a function of the values the SDF returns and of the renderer value.
+   Renderer STATE: a field of a type with a Render method that some function assigns survives
+   the call.  The scan lists every read of such a field; a read is harmless only as the
+   warn-once guard `if !r.f { log...; r.f = true }` (classified by the translator from the
+   syntax: no else, body = log calls and that store) or when listed here by name:
+     DualContouringV1.RCond@Render  the default 1e-3 is stored when the field is 0 and then
+                                    read: idempotent, the second call sees what the first used.
+   Any other read (e.g. a flag consulted to choose between ray cast and bisection) and any
+   store to a package-level variable breaks dc_deterministic. *)
 From Coq Require Import List String Bool.
 From Sdfx Require Import Generated.DCTables.
 Import ListNotations.
@@ -14,7 +22,11 @@ Definition mem (x : string) (l : list string) : bool := existsb (String.eqb x) l
 Definition nondeterministic_imports : list string :=
   ["math/rand"; "math/rand/v2"; "time"; "sync"; "sync/atomic"; "os"; "crypto/rand"; "runtime"; "unsafe"].
 
+Definition allowed_state_reads : list string := ["DualContouringV1.RCond@Render"].
+
 Definition dc_scan_clean : bool :=
+  is_nil dcScan_globalwrite &&
+  forallb (fun r => mem r allowed_state_reads) dcScan_stateread &&
   is_nil dcScan_go && is_nil dcScan_select && is_nil dcScan_maprange && is_nil dcScan_recv &&
   is_nil dcScan_badimport && is_nil dcScan_runtime &&
   forallb (fun i => negb (mem i nondeterministic_imports)) dcScanImports &&
@@ -26,11 +38,14 @@ Proof. vm_compute. reflexivity. Qed.
 
 Lemma dc_scan_clean_meaning : dc_scan_clean = true ->
   dcScan_go = [] /\ dcScan_select = [] /\ dcScan_maprange = [] /\ dcScan_recv = [] /\ dcScan_runtime = [] /\
+  dcScan_globalwrite = [] /\ (forall r, In r dcScan_stateread -> In r allowed_state_reads) /\
   forall i, In i dcScanImports -> ~ In i nondeterministic_imports.
 Proof.
-  unfold dc_scan_clean. rewrite !andb_true_iff. intros ((((((((G & S) & M) & R) & B) & U) & I) & _) & _).
+  unfold dc_scan_clean. rewrite !andb_true_iff. intros ((((((((((W & SR) & G) & S) & M) & R) & B) & U) & I) & _) & _).
   assert (N : forall (l : list string), is_nil l = true -> l = []) by (intros [|? ?]; [reflexivity | discriminate]).
   repeat split; try now apply N.
+  { intros r Hr. rewrite forallb_forall in SR. specialize (SR r Hr). unfold mem in SR.
+    apply existsb_exists in SR as (x & Hx & E). apply String.eqb_eq in E. now subst. }
   intros i Hi Hbad. rewrite forallb_forall in I. specialize (I i Hi). apply negb_true_iff in I.
   unfold mem in I. assert (existsb (String.eqb i) nondeterministic_imports = true).
   { apply existsb_exists. exists i. split; [exact Hbad | apply String.eqb_refl]. }
